@@ -4,6 +4,7 @@ pub fn main(args: &[String]) -> i32 {
         Some("c18") => super::p18::worker_main(&args[1..]),
         Some("c19") => super::p19::worker_main(&args[1..]),
         Some("c19-one") => super::p19::worker_one(&args[1..]),
+        Some("c19-span") => super::p19::worker_span(&args[1..]),
         Some("c18-timing") => super::p18::timing_main(),
         _ => 2,
     }
